@@ -517,7 +517,10 @@ class Act:
             "mode": "identity",
         }
         out = (f0, f0_old, grad, G)
-        if mode != "identity" and self.world is not None:
+        if mode == "identity_copy":
+            # same values, new objects
+            out = (f0, f0_old, np.array(grad, copy=True), deque(np.array(v, copy=True) for v in G))
+        elif mode != "identity" and self.world is not None:
             out = self.world.rewrite(self, j, rec, x, f0, f0_old, grad, X, G)
         rec["f0_out"] = float(out[0])
         rec["f0_old_out"] = float(out[1])
